@@ -85,6 +85,12 @@ class ObjStub:
         self.attrs = attrs
 
 
+class ExtCall:
+    """result of a call into an external (not analysed) module"""
+    def __init__(self, name, args, kwargs=None):
+        self.name, self.args, self.kwargs = name, args, kwargs or {}
+
+
 class OpaqueFn:
     def __init__(self, name, positive=False):
         self.name = name
@@ -155,6 +161,7 @@ class Interp:
         self._in_primitive = 0     # inside flowdyn._data (the covariant vector primitives)
         self.stn = None            # stencil.Stn when slice code is analysed
         self.follow_base_init = True
+        self.opaque_modules = ()   # module name prefixes whose calls are kept as ExtCall records
         self._active_lambdas = []
         self._owned_names = set()
         self._last_opaque_call = None
@@ -967,6 +974,8 @@ class Interp:
                 return list(args[0])
             raise AnalysisError("%s:%d unsupported builtin %s" % (func.qualname, ln, base))
         if not name.startswith("np"):
+            if any(name.startswith(m) for m in self.opaque_modules):
+                return ExtCall(name, args, kwargs)
             raise AnalysisError("%s:%d call into unknown module %s" % (func.qualname, ln, name))
         if base in self.np_hooks:
             return self.np_hooks[base](args, kwargs)
@@ -1079,6 +1088,7 @@ class GvnDomain:
     """adapter: algebra.Algebra as an interpreter domain"""
     def __init__(self, alg):
         self.alg = alg
+        self.lattice = {}      # key(RF) -> ('min'|'max', [operand RFs]) for values built by min/max
 
     def is_value(self, v):
         from .algebra import RF
@@ -1120,7 +1130,18 @@ class GvnDomain:
         raise AnalysisError("unsupported function %s" % fn)
 
     def func2(self, fn, a, b):
-        return self.alg.maximum(a, b) if fn == "maximum" else self.alg.minimum(a, b)
+        r = self.alg.maximum(a, b) if fn == "maximum" else self.alg.minimum(a, b)
+        # lattice normal form: the flattened set of operands of nested min (resp. max)
+        kind = "max" if fn == "maximum" else "min"
+        elems = []
+        for x in (a, b):
+            info = self.lattice.get(self.alg.key(x))
+            if info is not None and info[0] == kind:
+                elems.extend(info[1])
+            else:
+                elems.append(x)
+        self.lattice[self.alg.key(r)] = (kind, elems)
+        return r
 
     def where(self, c, a, b):
         return self.alg.where(c, a, b)
@@ -1144,7 +1165,12 @@ class GvnDomain:
         return v != 0
 
     def fold(self, v, hint):
-        return self.alg.fold(v, hint)
+        r = self.alg.fold(v, hint)
+        if r is not v:
+            info = self.lattice.get(self.alg.key(v))
+            if info is not None:
+                self.lattice[self.alg.key(r)] = info
+        return r
 
     def opaque(self, name, args, positive=False):
         return self.alg.opaque(name, args, positive)
